@@ -75,11 +75,11 @@ func vhByteElem(storage *BasicSlabStorage, addr Address, a *Array, depth int, to
 		kinds = 4
 	}
 	if depth > 0 {
-		kinds++
+		kinds += 2
 	}
 	k := vhChoose("elem", kinds)
 	if !top && k >= 1 {
-		k += 2 // nested: only scalar (0), small blob (3), child (4)
+		k += 2 // nested: only scalar (0), small blob (3), child array (4), child map (5)
 	}
 	switch k {
 	case 0:
@@ -101,6 +101,12 @@ func vhByteElem(storage *BasicSlabStorage, addr Address, a *Array, depth int, to
 		} else {
 			_ = a.Append(c)
 		}
+	case 5: // nested map (inlined, non-composite type) with 0..1 entries, real hashing
+		m, _ := NewMap(storage, addr, NewDefaultDigesterBuilder(), vTypeInfo{id: uint64(50 + depth)})
+		if vhChoose("childlen", 2) == 1 {
+			_, _ = m.Set(vhCompareBK, vhHipB, vBKey{val: 77}, vU64(vhU64("val")))
+		}
+		_ = a.Append(m)
 	}
 }
 
@@ -124,7 +130,7 @@ func VH_C07_ArrayBytes() {
 			_ = a.Append(vBlob{n: 100})
 		}
 	}
-	verr := VerifyArray(a, addr, vTypeInfo{id: 42}, vhTic, vhHip, true)
+	verr := VerifyArray(a, addr, vTypeInfo{id: 42}, vhTic, vhHipB, true)
 	vhAssert(verr == nil, "array valid")
 	// encode -> decode -> encode identity, reported size == encoded size, decoded fields equal
 	serr := VerifyArraySerialization(a, storage.cborDecMode, storage.cborEncMode, vhDecodeStorableB, vhDecodeTypeInfo, vhStorableEqual)
